@@ -1,3 +1,3 @@
 #[path = "../seed.rs"] mod seed;
 #[path = "../seeds_m2.rs"] mod seeds_m2;
-fn main() { let s = seeds_m2::seeds(); for x in &s { println!("{} {} {} bytes", x.fmt, x.name, x.bytes.len()); } match seeds_m2::selftest() { Ok(()) => println!("selftest ok"), Err(e) => { println!("selftest FAILED: {e}"); std::process::exit(1) } } }
+fn main() { let s = seeds_m2::seeds(); for x in &s { println!("{} {} {} bytes", x.fmt, x.name, x.bytes.len()); } if std::env::args().any(|a| a == "-v") { print!("{}", seeds_m2::report()); } match seeds_m2::selftest() { Ok(()) => println!("selftest ok"), Err(e) => { println!("selftest FAILED: {e}"); std::process::exit(1) } } }
